@@ -24,7 +24,8 @@ ASSUMPTIONS = ["header-name case, chunk boundaries, wsgi.errors target and SERVE
 MIN_DECISIVE = {"call-once": 50, "off-loop": 50, "environ": 50, "response": 50, "close-once": 20, "size-limit": 20, "websocket-refused": 5}
 N = {"quick": 4000, "thorough": 40000}
 
-SHAPES = ["list", "tuple", "generator", "lazy_generator", "iter_close", "lazy_iter_close", "raise_before", "raise_after", "no_start"]
+SHAPES = ["list", "tuple", "generator", "lazy_generator", "iter_close", "lazy_iter_close", "iterable_close_gen", "iterable_close_list",
+          "raise_before", "raise_after", "no_start"]
 
 
 def gen(rng, tier):
@@ -58,7 +59,7 @@ def gen(rng, tier):
         shape = rng.choice(SHAPES)
         nch = rng.choice([0, 1, 2, 4])
         chunks = [rng.choice([b"", b"x", b"chunk-%d-" % k * rng.choice([1, 50]), bytes(range(256))]) for k in range(nch)]
-        raise_at = rng.choice([None, None, None, 0, 1]) if shape in ("generator", "iter_close", "lazy_iter_close") else None
+        raise_at = rng.choice([None, None, None, 0, 1]) if shape in ("generator", "iter_close", "lazy_iter_close", "iterable_close_gen") else None
         status = rng.choice(["200 OK", "201 Created", "404 Not Found", "500 Internal Server Error", "299 Custom"])
         rh = [("X-W", "v%d" % i), ("Content-Type", "text/x-test")]
         if rng.random() < 0.3:
@@ -228,7 +229,7 @@ def check(case, obs, tally):
             if rbody != b"".join(t["chunks"]) or not complete:
                 out.append({"clause": "response", "sig": "C17.response/body/%s" % shape,
                             "detail": "body %d bytes complete=%r expected %d" % (len(rbody), complete, len(b"".join(t["chunks"])))})
-    if shape in ("iter_close", "lazy_iter_close"):
+    if shape in ("iter_close", "lazy_iter_close", "iterable_close_gen", "iterable_close_list"):
         tally.clause("close-once")
         if rec.get("closes", 0) != 1:
             out.append({"clause": "close-once", "sig": "C17.close-count-%d/%s" % (rec.get("closes", 0), "error" if raises_mid else "normal"),
